@@ -811,6 +811,8 @@ def _fit(case, fields, dim):
             rot["compute"] = False
     if case["lazy"] != "eager" and rot is not None:
         rot["max_iter"] = 6  # dask input: the rotation iterations are unrolled into / run through the graph
+    if case["lazy"] != "eager" and bn == "SparsePCA":
+        kw["max_iter"] = 3  # dask input: every iteration adds a dask SVD to the graph (500 of them take > 20 min to build)
     return zoo.fit(name, fields, dim, kw=kw, rot_kw=rot, base_name=bn if rot is not None else None)
 
 
